@@ -424,9 +424,13 @@ func (hs *clientHandshakeState) handshake() error {
 		if err = hs.sendFinished(c.clientFinished[:]); err != nil {
 			return err
 		}
+		// 会话重用时客户端发送最后一 flight：保存并进入 2*MSL 驻留期，
+		// 以便服务端重传其 flight（说明没收到）时能够重传
+		c.flightRetransmit = append([]byte(nil), c.sendBuf...)
 		if _, err = c.flush(); err != nil {
 			return err
 		}
+		c.dwellDeadline = time.Now().Add(dwellPeriod)
 	} else {
 		// === 全握手 ===
 		// Flight 4: 接收 Certificate + ServerKeyExchange* + CertificateRequest* + ServerHelloDone
